@@ -83,8 +83,11 @@ def _states_str(st: dict, ngrains: int):
 def build_hosted(rng, *, capacity: int, grain: int, ngte: int = 512, states=None, placement: str = "shuffle",
                  tag: int = 1, kind: int = 0, version: int = 1, zero_gte: bool = True, redundant: bool = False,
                  descriptor: str | None = None, align_grains: bool = True, tables_after_data: bool = False,
-                 empty_tables: bool = True, far_sector: int = 0, desc_exact: bool = False, gd_in_footer: bool = False):
+                 empty_tables: bool = True, far_sector: int = 0, desc_exact: bool = False, gd_in_footer: bool = False,
+                 gd_last: bool = False, redundant_override=None):
     """Plain (non-compressed) hosted sparse extent. states per grain: A / U / Z."""
+    if redundant_override is not None:
+        redundant = redundant_override
     ngrains = -(-capacity // grain)
     if states is None:
         states = _states(rng, ngrains, "AAUZ" if zero_gte else "AAU")
@@ -122,13 +125,18 @@ def build_hosted(rng, *, capacity: int, grain: int, ngte: int = 512, states=None
                 if gts[t]:
                     layout["rgt"][t] = c
                     c += gt_sectors
-        layout["gd"] = c
-        c += gd_sectors
+        if not gd_last:
+            layout["gd"] = c
+            c += gd_sectors
         layout["gt"] = {}
         torder = _order(rng, [t for t in range(ngd) if gts[t]], "shuffle" if placement != "seq" else "seq")
         for t in torder:
             layout["gt"][t] = c
             c += gt_sectors
+        if gd_last:
+            # the directory closes the file
+            layout["gd"] = c
+            c += gd_sectors
         return c
 
     if not tables_after_data:
